@@ -176,6 +176,16 @@ pub fn positions(tier: &Tier) -> Result<Vec<Position>, String> {
         let prune = w.cfg.consensus.prune_after_blocks;
         out.push(Position { name: "node-joined-at-block-3-now-at-3+g".into(), w, tip: t, side: None, spent_elsewhere: None, expired_present: None, prelude: vec![], phantom: None, witnessed: Some((order, prune)), abandoned_output: None });
     }
+    // window wrapped four times (g=3): the tip, block 18, sits in slot 0 of the six-slot ring and block 1
+    // has been purged; a reorganisation away from it rolls the ring back across its start
+    {
+        let mut w = world(3);
+        let mut t = 0;
+        for i in 0..17 {
+            t = w.honest_child(t, 0, &format!("Z{}", i + 2))?;
+        }
+        out.push(Position { name: "wrapped-g3-tip-in-ring-slot-0".into(), w, tip: t, side: None, spent_elsewhere: None, expired_present: None, prelude: vec![], phantom: None, witnessed: None, abandoned_output: None });
+    }
     // window wrapped with a fee level >= 1 nolan/byte: a dust output is not rebroadcast but
     // stays in the map until the 2g purge
     if true {
@@ -688,6 +698,100 @@ fn gate_block(w: &World, p: &Position, tip: usize, c: &Candidate, first: bool, s
     }
 }
 
+/// Gate: the adversarial block is the FIRST block of a competing chain. X is a sibling of the
+/// node's tip (stored unexamined as a side block), an honest block Y on top of it makes that chain
+/// strictly longer, and the reorganisation winds X first. Y is assembled by the attacker's own
+/// full node on the unedited twin of X and re-parented onto X. None when the unedited twin does
+/// not get adopted this way at this position (gate not applicable).
+fn gate_first_of_side_chain(w: &World, p: &Position, tip: usize, c: &Candidate) -> Option<(Verdict, String)> {
+    use crate::node::{block_bytes, golden_ticket_tx, txmap};
+    let pp = w.blocks[tip].parent?;
+    let att = key(ATTACKER);
+    let g = w.cfg.consensus.genesis_period;
+    let l = &w.ledgers[pp];
+    let h = w.blocks[pp].id + 1;
+    let own = l.unspent_of(&att.public).into_iter().find(|s| s.block_id + g > h && s.amount > 1000)?;
+    let control = Candidate { edit: "control".into(), tx: make_tx(&[own.clone()], &[(att.public, own.amount)], &att, w.blocks[pp].ts + 77, b"x"), tx2: None, control: true };
+    let x0 = attacker_block(w, pp, &control, false).ok()?;
+    let x0b = decode_block(&x0);
+    // Y on X0, by the attacker's node
+    let mut an = w.node_at(pp, att).ok()?;
+    if !matches!(an.add_block_bytes(&x0), Outcome::Done(AddRes::AddedLongest)) {
+        return None;
+    }
+    let yid = x0b.id + 1;
+    let yts = x0b.timestamp + crate::factory::SPACING + 9;
+    let y = {
+        let bc = an.blockchain.clone();
+        let cfg = an.cfg.clone();
+        let storage = &an.storage;
+        let phash = x0b.hash;
+        let made = crate::exec::run(async {
+            let bc = bc.read().await;
+            let difficulty = bc.get_block(&phash).map(|b| b.difficulty).unwrap_or(0);
+            let gt = if yid % 2 == 0 {
+                let mut t = golden_ticket_tx(phash, difficulty, &att, 0);
+                t.generate(&att.public, 0, 0);
+                Some(t)
+            } else {
+                None
+            };
+            let mut f = make_tx(&[], &[(key(5).public, 0)], &key(5), yts, b"follower");
+            f.generate(&att.public, 0, 0);
+            let mut map = txmap(vec![f]);
+            saito_core::core::consensus::block::Block::create(&mut map, phash, &bc, yts, &att.public, &att.private, gt, &cfg, storage).await
+        });
+        match made {
+            Outcome::Done(Ok(b)) => b,
+            _ => return None,
+        }
+    };
+    let reparent = |y: &saito_core::core::consensus::block::Block, new_parent: Hash| {
+        let mut c = y.clone();
+        c.previous_block_hash = new_parent;
+        for i in 0..c.transactions.len() {
+            if c.transactions[i].transaction_type == TransactionType::GoldenTicket {
+                let mut t = golden_ticket_tx(new_parent, 0, &att, 0);
+                t.generate(&att.public, 0, 0);
+                c.transactions[i] = t;
+            }
+        }
+        c.created_hashmap_of_slips_spent_this_block = false;
+        c.slips_spent_this_block.clear();
+        c.merkle_root = [0; 32];
+        c.merkle_root = c.generate_merkle_root(false, false);
+        c.sign(&att.private);
+        let _ = c.generate();
+        c
+    };
+    let run_with = |xbytes: &[u8]| -> Option<Verdict> {
+        let xb = decode_block(xbytes);
+        let yb = if xb.hash == x0b.hash { y.clone() } else { reparent(&y, xb.hash) };
+        let mut n = node_with_prelude(p, tip).ok()?;
+        let before = n.tip();
+        match n.add_block_bytes(xbytes) {
+            Outcome::Done(_) => {}
+            o => return Some(Verdict::Abort(o.label())),
+        }
+        if n.tip() != before {
+            return None; // the sibling alone already displaced the tip: not this gate
+        }
+        match n.add_block_bytes(&block_bytes(&yb)) {
+            Outcome::Done(_) => {}
+            o => return Some(Verdict::Abort(o.label())),
+        }
+        Some(if n.tip().1 == yb.hash { Verdict::Accepted } else { Verdict::Rejected })
+    };
+    if run_with(&x0) != Some(Verdict::Accepted) {
+        return None;
+    }
+    if c.control && c.tx2.is_none() && c.tx.from.iter().filter(|s| s.amount > 0).all(|s| l.utxo.contains(&s.get_utxoset_key())) {
+        // the position's own control, where its inputs already exist below the tip
+    }
+    let x = attacker_block(w, pp, c, false).ok()?;
+    run_with(&x).map(|v| (v, String::new()))
+}
+
 pub fn main(tier: Tier, _replay: Option<String>) -> i32 {
     let mut rep = Report::new("C01", tier.clone(), "model_checking");
     let ps = match positions(&tier) {
@@ -815,6 +919,20 @@ pub fn main(tier: Tier, _replay: Option<String>) -> i32 {
             let (v, d) = gate_block(w, p, tip, c, false, true);
             verdicts.push(("block:side-chain".into(), v, d));
         }
+        let mut first_of_side = false;
+        // (not at the joined-mid-chain position: a sibling of its tip is at height J+g, which such a
+        // node winds unchecked by design)
+        if tip == p.tip && !c.control && !p.name.starts_with("node-joined") {
+            match gate_first_of_side_chain(w, p, tip, c) {
+                Some((v, d)) => {
+                    first_of_side = true;
+                    r.outcome(&format!("first-of-side-chain@{}:{}", p.name, match &v { Verdict::Accepted => "adopted", Verdict::Rejected => "refused", Verdict::Abort(_) => "abort" }));
+                    verdicts.push(("block:first-of-a-longer-side-chain".into(), v, d));
+                }
+                None => r.outcome("gate-not-applicable:first-of-a-longer-side-chain"),
+            }
+        }
+        let _ = first_of_side;
         for (gate, v, d) in verdicts {
             r.evaluations += 1;
             r.transitions += 1;
@@ -826,6 +944,18 @@ pub fn main(tier: Tier, _replay: Option<String>) -> i32 {
             let auth_here = if gate == "block:side-chain" {
                 let (_, sp) = p.side.unwrap();
                 authorised(&c.tx, &w.ledgers[sp], w.blocks[sp].id + 1, g)
+            } else if gate == "block:first-of-a-longer-side-chain" {
+                let pp = w.blocks[tip].parent.unwrap();
+                let mut a = authorised(&c.tx, &w.ledgers[pp], w.blocks[pp].id + 1, g);
+                if a.is_ok() {
+                    if let Some(t2) = &c.tx2 {
+                        let x: BTreeSet<_> = c.tx.from.iter().filter(|s| s.amount > 0).map(|s| s.get_utxoset_key()).collect();
+                        if t2.from.iter().any(|s| s.amount > 0 && x.contains(&s.get_utxoset_key())) {
+                            a = Err("two transactions of one block spend the same output".into());
+                        }
+                    }
+                }
+                a
             } else {
                 auth.clone()
             };
